@@ -290,6 +290,30 @@ fn sweep05(part: usize, parts: usize) -> impl Iterator<Item = Case05> {
             }
         }
     }
+    // framing level: every message replaced by each of a family of short raw frames (fast-path and TPKT headers with
+    // boundary lengths, in both length forms)
+    let mut frames: Vec<Vec<u8>> = Vec::new();
+    for b0 in [0u8, 1, 2, 3, 4, 0x40, 0x80, 0xC3, 0xFF] {
+        frames.push(vec![b0]);
+        for b1 in 0..=255u8 {
+            frames.push(vec![b0, b1]);
+        }
+        for b1 in [0u8, 1, 2, 3, 4, 0x7F, 0x80, 0x81, 0xFF] {
+            for b2 in [0u8, 1, 2, 3, 4, 5, 6, 7, 0x7F, 0x80, 0xFF] {
+                frames.push(vec![b0, b1, b2]);
+                frames.push(vec![b0, b1, b2, 0]);
+                frames.push(vec![b0, b1, 0, b2]);
+                frames.push(vec![b0, b1, b2, 0, 0, 0, 0]);
+            }
+        }
+    }
+    let simple = ServerProfile::simple(1004, 0x000103EA);
+    for f in &frames {
+        v.push(Case05::RawConfirm(f.clone()));
+        for mi in 0..5u16 {
+            v.push(Case05::Conn { profile: simple.clone(), fault: Fault { message: mi, kind: FaultKind::ReplaceFrame(f.clone()), kind2: None } });
+        }
+    }
     v.into_iter().enumerate().filter(move |(i, _)| i % parts == part).map(|(_, c)| c)
 }
 
